@@ -99,9 +99,11 @@ def _num(x):
             return {'t': 'float', 'v': 'nan'}
         if math.isinf(x):
             return {'t': 'float', 'v': 'inf' if x > 0 else '-inf'}
-        fr = Fraction(x).limit_denominator(10 ** 6)
-        if abs(fr.numerator) < 2 ** 31 and abs(float(fr) - x) <= 1e-12 * max(1.0, abs(x)):
-            return {'t': 'num', 'n': fr.numerator, 'd': fr.denominator}
+        # a double that is (within 1e-12 relative) a rational n/d with 32-bit n and d is reported as that rational
+        for bound in (10 ** 6, 2 * 10 ** 9):
+            fr = Fraction(x).limit_denominator(bound)
+            if abs(fr.numerator) < 2 ** 31 and abs(float(fr) - x) <= 1e-12 * abs(x):
+                return {'t': 'num', 'n': fr.numerator, 'd': fr.denominator}
         return {'t': 'float', 'v': repr(x)}
     return None
 
